@@ -45,17 +45,20 @@
 (*                                                                         *)
 (* Switches (constants) re-create other designs so that the invariants are *)
 (* shown to have teeth (expected-counterexample configs):                  *)
-(*   DescPlatStrict  FALSE = as found: an unparsable --desc-platform is    *)
-(*                   swallowed and the entry is added without platform     *)
-(*                   (finding X03-1); TRUE = rejected like --platform      *)
-(*   PlatLookupStrict FALSE = as found: when the config of an image cannot *)
-(*                   be read (ReadFaults) the entry is added without       *)
-(*                   platform and the command succeeds (finding X03-2);    *)
-(*                   TRUE = the command fails                              *)
-(*   EqualAnnStrict  FALSE = as found: descriptor.Equal compares the       *)
-(*                   annotations key by key without checking that the key  *)
-(*                   exists on the other side (finding X03-3); TRUE = maps *)
-(*                   must be equal                                         *)
+(*   DescPlatStrict  TRUE (default) = the code since fix 9d51d78: an        *)
+(*                   unparsable --desc-platform is refused next to the     *)
+(*                   --platform values, before anything is copied; FALSE = *)
+(*                   as found: swallowed, entry added without platform     *)
+(*                   (finding X03-1, seeded/fixrev-X03-1-...)              *)
+(*   PlatLookupStrict FALSE (default) = as found: when the config of an    *)
+(*                   image cannot be read (ReadFaults) the entry is added  *)
+(*                   without platform and the command succeeds (finding    *)
+(*                   X03-2, known); TRUE = the command fails               *)
+(*   EqualAnnStrict  TRUE (default) = the code since fix c2e01d2:          *)
+(*                   descriptor.Equal compares annotation maps; FALSE = as *)
+(*                   found: key by key without checking that the key       *)
+(*                   exists on the other side (finding X03-3,              *)
+(*                   seeded/fixrev-X03-3-...)                              *)
 (*   PutFirst        TRUE: the index is pushed before the copies           *)
 (*   DedupByDigest   TRUE: duplicates are recognised by digest alone       *)
 (*   DeleteKeepsOne  TRUE: delete stops after the first match              *)
